@@ -8,10 +8,17 @@ import (
 	"flag"
 	"fmt"
 	"os"
+	"strings"
 	"time"
 )
 
 var runners = map[string]func(*Ctx){
+	"C01": runC01,
+	"C06": runC06,
+	"C07": runC07,
+	"C14": runC14,
+	"C15": runC15,
+	"C19": runC19,
 	"C20": runC20,
 }
 
@@ -24,6 +31,8 @@ func main() {
 	replay := flag.String("replay", "", "replay file (a failure record)")
 	corpus := flag.String("corpus", "", "corpus directory of this property (minimised past failures, run first)")
 	repo := flag.String("repo", "/repo", "repository working tree (fixtures, sources)")
+	verif := flag.String("verif", "/verif", "verification directory")
+	ops := flag.String("ops", "", "comma-separated ops the driver implements")
 	flag.Parse()
 	r, ok := runners[*prop]
 	if !ok {
@@ -38,6 +47,13 @@ func main() {
 	c.Replay = *replay
 	c.Corpus = *corpus
 	c.Repo = *repo
+	c.Verif = *verif
+	c.Ops = map[string]bool{}
+	for _, o := range strings.Split(*ops, ",") {
+		if o != "" {
+			c.Ops[o] = true
+		}
+	}
 	t0 := time.Now()
 	r(c)
 	c.Finish(*out)
